@@ -101,13 +101,14 @@ void CSVParser<IndexType, DType>::ParseBlock(
     while (p != lend) {
       char *endptr;
       DType v;
-      // a cell with nothing but white space up to the line end is a missing value; strtof/strtoll
-      // would skip the end-of-line characters as white space and convert the next line's first cell
+      // a cell with nothing but white space up to the delimiter or the line end is a missing value;
+      // strtof/strtoll would skip a white-space delimiter or the end-of-line characters as leading
+      // white space and convert the next cell (or the next line's first cell)
       const char *cell = p;
-      while (cell != lend && (isspace(*cell) || *cell == '\v')) {
+      while (cell != lend && *cell != param_.delimiter[0] && (isspace(*cell) || *cell == '\v')) {
         ++cell;
       }
-      if (cell == lend) {
+      if (cell == lend || *cell == param_.delimiter[0]) {
         v = DType(0);
         endptr = const_cast<char *>(p);
       } else if (std::is_same<DType, real_t>::value) {  // if DType is float32
